@@ -134,8 +134,12 @@ func alterations(p *protomodel.ProofDocumentResponse, doc *structpb.Struct, know
 		}
 	}
 	hdrAlts(func(p *protomodel.ProofDocumentResponse) *schema.TxHeader { return p.VerifiableTx.Tx.Header }, "tx.header", mk)
-	hdrAlts(func(p *protomodel.ProofDocumentResponse) *schema.TxHeader { return p.VerifiableTx.DualProof.SourceTxHeader }, "dualProof.source", mk)
-	hdrAlts(func(p *protomodel.ProofDocumentResponse) *schema.TxHeader { return p.VerifiableTx.DualProof.TargetTxHeader }, "dualProof.target", mk)
+	hdrAlts(func(p *protomodel.ProofDocumentResponse) *schema.TxHeader {
+		return p.VerifiableTx.DualProof.SourceTxHeader
+	}, "dualProof.source", mk)
+	hdrAlts(func(p *protomodel.ProofDocumentResponse) *schema.TxHeader {
+		return p.VerifiableTx.DualProof.TargetTxHeader
+	}, "dualProof.target", mk)
 	mk("dualProof.headers-swapped", func(a *alt) {
 		d := a.proof.VerifiableTx.DualProof
 		d.SourceTxHeader, d.TargetTxHeader = d.TargetTxHeader, d.SourceTxHeader
@@ -195,6 +199,9 @@ func runC(path []int) (vs []cviol, nver int64) {
 			panic(err)
 		}
 		alh[st.TxId] = st.TxHash
+		if err := db.WaitForIndexingUpto(ctx, st.TxId); err != nil { // AuditDocument does not wait for the indexer
+			panic(err)
+		}
 	}
 	var ix []*protomodel.Index
 	for _, f := range fields {
@@ -316,7 +323,8 @@ func runC(path []int) (vs []cviol, nver int64) {
 					idv := a.doc.Fields["_id"].GetStringValue()
 					claimTrue := a.proof.DocumentIdFieldName == "_id" && a.proof.CollectionId == p.CollectionId && idv == r.id &&
 						trueRev(a.doc, a.proof.VerifiableTx.Tx.Header.Id) && alh[st.TxId] != nil && string(alh[st.TxId]) == string(st.TxHash)
-					if a.known != nil && (alh[a.known.TxId] == nil || string(alh[a.known.TxId]) != string(a.known.TxHash)) {
+					// (a known state with TxId 0 means "no previous state": then only the hash chain from tx 1 is claimed)
+					if a.known != nil && a.known.TxId != 0 && (alh[a.known.TxId] == nil || string(alh[a.known.TxId]) != string(a.known.TxHash)) {
 						claimTrue = false // a false previous state was "extended"
 					}
 					if !claimTrue {
